@@ -3,6 +3,8 @@
    "the same" when they are the same TERM over stored variables, keyword values and compute calls. *)
 From Coq Require Import ZArith List Bool Arith PeanoNat.
 From VP Require Import ObjModel ObjNames ObjApi ObjChecks.
+From VP Require ObjModel ObjNames NbModel NbApi NbChecks.
+Import ObjNames List.ListNotations.
 
 (* px,py,pt,pt2,pz,p,p2,pseudorapidity,E/e/energy,E2..,M/m/mass,M2.. are the expressions of x,y,rho,rho2,z,mag,mag2,eta,t,t2,tau,tau2;
    et/transverse_energy = Et, mt/transverse_mass = Mt (and squares); for all 20 systems; absent on generic vectors *)
@@ -18,6 +20,15 @@ Proof. vm_compute. reflexivity. Qed.
 Theorem C14_flavor_changes_no_number :
   forallb check_flavor_getter getters_tab = true /\ forallb check_flavor_conv conv_tab = true /\ forallb check_flavor_unary unary_tab = true.
 Proof. vm_compute. repeat split; reflexivity. Qed.
+
+
+(* the same laws hold in numba-compiled code: for these operations every program point of the numba-supported API has the
+   same outcome (class, coordinate system, field expressions over the generated compute definitions) through the
+   Numba overload layer as through the interpreter (T5 table, gen/NbApi*.v; exceptions: the C07 known findings) *)
+Theorem C14_compiled_momentum_are_the_interpreted_ones :
+  VP.NbChecks.agree_on [N_px; N_py; N_pt; N_pt2; N_pz; N_pseudorapidity; N_p; N_p2; N_E; N_energy; N_E2; N_energy2; N_M; N_mass; N_M2; N_mass2; N_Et; N_transverse_energy; N_Et2; N_transverse_energy2; N_Mt; N_transverse_mass; N_Mt2; N_transverse_mass2]%list = true /\
+  Nat.ltb 100 (VP.NbChecks.count_on [N_px; N_py; N_pt; N_pt2; N_pz; N_pseudorapidity; N_p; N_p2; N_E; N_energy; N_E2; N_energy2; N_M; N_mass; N_M2; N_mass2; N_Et; N_transverse_energy; N_Et2; N_transverse_energy2; N_Mt; N_transverse_mass; N_Mt2; N_transverse_mass2]%list) = true.
+Proof. vm_cast_no_check (conj (eq_refl true) (eq_refl true)). Qed.
 
 Example C14_nonvacuous :
   existsb (fun e => match e with (s, n, OutScalar _) => s_mom s && Pos.eqb n N_mass | _ => false end) getters_tab = true /\
